@@ -2,6 +2,14 @@ use crate::prelude::*;
 use std::sync::{Arc, RwLock};
 use subject::Subject;
 
+// The shared connection to the source. `epoch` changes whenever the connection is given
+// up (last subscriber left, source ended) or a new one is started, so that whoever is still
+// busy with an older connection can tell that it is no longer the current one.
+struct Connection<'a> {
+  subscription: Option<Subscription<'a>>,
+  epoch: u64,
+}
+
 #[derive(Clone)]
 pub struct RefCount<'a, Item>
 where
@@ -9,9 +17,7 @@ where
 {
   subject: subjects::Subject<'a, Item>,
   source: Observable<'a, Item>,
-  subscription: Arc<RwLock<Option<Subscription<'a>>>>,
-  // false once the subscriber count dropped to zero (also while still connecting)
-  wanted: Arc<RwLock<bool>>,
+  connection: Arc<RwLock<Connection<'a>>>,
 }
 
 impl<'a, Item> RefCount<'a, Item>
@@ -22,8 +28,10 @@ where
     let _self = RefCount {
       subject: Subject::<Item>::new(),
       source,
-      subscription: Arc::new(RwLock::new(None)),
-      wanted: Arc::new(RwLock::new(false)),
+      connection: Arc::new(RwLock::new(Connection {
+        subscription: None,
+        epoch: 0,
+      })),
     };
     _self.set_ref_count();
     _self
@@ -35,14 +43,17 @@ where
 
   fn set_ref_count(&self) {
     {
-      let subscription = Arc::clone(&self.subscription);
-      let wanted = Arc::clone(&self.wanted);
+      let connection = Arc::clone(&self.connection);
       self.subject.set_on_unsubscribe(move |count| {
         if count == 0 {
           // disconnect; the slot is emptied so that the next first subscriber connects
-          // again, and no lock is held while the source is unsubscribed
-          *wanted.write().unwrap() = false;
-          let sbsc = subscription.write().unwrap().take();
+          // again (a connection that is still being made sees the new epoch and is
+          // dropped), and no lock is held while the source is unsubscribed
+          let sbsc = {
+            let mut c = connection.write().unwrap();
+            c.epoch += 1;
+            c.subscription.take()
+          };
           if let Some(sbsc) = sbsc {
             sbsc.unsubscribe();
           }
@@ -52,8 +63,7 @@ where
 
     let source = self.source.clone();
     let subject = self.subject.clone();
-    let subscription = Arc::clone(&self.subscription);
-    let wanted = Arc::clone(&self.wanted);
+    let connection = Arc::clone(&self.connection);
 
     self.subject.set_on_subscribe(move |count| {
       if count == 1 {
@@ -62,49 +72,71 @@ where
         let sbj_error = subject.clone();
         let sbj_complete = subject.clone();
 
-        if subscription.read().unwrap().is_some() {
-          return;
-        }
+        let epoch = {
+          let mut c = connection.write().unwrap();
+          if c.subscription.is_some() {
+            return;
+          }
+          c.epoch += 1;
+          c.epoch
+        };
+
+        // A terminal of the source ends every subscriber, and with them this connection.
+        // It is given up *before* the subscribers are told, so that one of them
+        // re-subscribing from its callback (retry) starts a fresh connection, and only if it
+        // still is the current one. (weak: the stored subscription must not keep its own
+        // slot alive)
+        let give_up = {
+          let connection = Arc::downgrade(&connection);
+          move || {
+            connection.upgrade().and_then(|connection| {
+              let mut c = connection.write().unwrap();
+              if c.epoch == epoch {
+                c.epoch += 1;
+                c.subscription.take()
+              } else {
+                None
+              }
+            })
+          }
+        };
+        let give_up_error = give_up.clone();
+        let give_up_complete = give_up;
 
         // no lock is held while subscribing: a synchronous source may end the subscriber
         // (and thereby disconnect) before subscribe returns
-        *wanted.write().unwrap() = true;
-        // a terminal of the source ends every subscriber, and with them the connection:
-        // the slot is emptied so that the next first subscriber connects again
-        // (weak: the stored subscription must not keep its own slot alive)
-        let release = {
-          let subscription = Arc::downgrade(&subscription);
-          let wanted = Arc::clone(&wanted);
-          move || {
-            *wanted.write().unwrap() = false;
-            if let Some(subscription) = subscription.upgrade() {
-              let sbsc = subscription.write().unwrap().take();
-              if let Some(sbsc) = sbsc {
-                sbsc.unsubscribe();
-              }
-            }
-          }
-        };
-        let release_error = release.clone();
-        let release_complete = release;
         let sbsc = source.subscribe(
           move |x| {
             sbj_next.next(x);
           },
           move |e| {
+            let ended = give_up_error();
             sbj_error.error(e);
-            release_error();
+            if let Some(ended) = ended {
+              ended.unsubscribe();
+            }
           },
           move || {
+            let ended = give_up_complete();
             sbj_complete.complete();
-            release_complete();
+            if let Some(ended) = ended {
+              ended.unsubscribe();
+            }
           },
         );
-        if *wanted.read().unwrap() {
-          *subscription.write().unwrap() = Some(sbsc);
-        } else {
-          // the last subscriber left while the source was being subscribed
-          sbsc.unsubscribe();
+        let stale = {
+          let mut c = connection.write().unwrap();
+          if c.epoch == epoch {
+            c.subscription = Some(sbsc);
+            None
+          } else {
+            // given up while the source was being subscribed (last subscriber left, the
+            // source ended, or a newer connection was started meanwhile)
+            Some(sbsc)
+          }
+        };
+        if let Some(stale) = stale {
+          stale.unsubscribe();
         }
       }
     });
